@@ -14,6 +14,8 @@
  * sticky state alone).  Every frame is then decoded (a) by a fresh DCtx, single call, (b) by a fresh DCtx, streaming with small outputs (a frame
  * reaching into a dictionary beyond its window fails here), (c) by ONE long-lived DCtx that receives the dictionary in one of 7 ways with resets
  * in between; the dictionary ID in the header is checked; every other formatted dictionary of the scenario must be refused.
+ *   P <id> <seed>                -> <id> OK D0:<hex> D1:<hex> D2:<hex> F:<kind 0 none 1 raw 2 formatted>:<dict>:<framehex>:<inputhex> ...   (frames of inputs <= 40000 bytes
+ *                                   with dictionaries <= 70000 bytes, for the reference decoder)
  *   S <id> <firstSeed> <count>   -> <id> OK scenarios=<n> frames=<n>   |   <id> FAIL seed=<s> what=<text> history=<text>   (spaces as _) */
 #define ZSTD_STATIC_LINKING_ONLY
 #define ZSTD_DISABLE_DEPRECATE_WARNINGS
@@ -228,12 +230,18 @@ static size_t decode_fresh(rng_t* r, use_t u, const unsigned char* f, size_t fn,
 }
 
 /* the long-lived DCtx: random way of giving it the dictionary, with resets */
-static ZSTD_DCtx* g_dc; static ZSTD_DDict* g_dd[NDICT][2];
+static ZSTD_DCtx* g_dc; static ZSTD_DDict* g_dd[NDICT][2]; static use_t g_dst;   /* sticky dictionary of the long-lived DCtx */
 static size_t decode_reused(rng_t* r, use_t u, const unsigned char* f, size_t fn, unsigned char* out, size_t cap) {
     const dict_t* d = u.kind == K_NONE ? NULL : &DI[u.di]; int how = (int)pick(r, 7); size_t e;
     if (chance(r, 20)) { rec(" <dreset %d>", 1); ZSTD_DCtx_reset(g_dc, ZSTD_reset_session_only); }
-    if (chance(r, 15)) { rec(" <dreset p>"); ZSTD_DCtx_reset(g_dc, ZSTD_reset_session_and_parameters); }
-    if (u.kind == K_NONE) { rec(" <dec none h%d>", how);
+    if (chance(r, 15)) { rec(" <dreset p>"); ZSTD_DCtx_reset(g_dc, ZSTD_reset_session_and_parameters); g_dst.kind = K_NONE; }
+    /* the dictionary loaded / referenced for an earlier frame is sticky: the same dictionary need not be given again */
+    if (u.kind != K_NONE && g_dst.kind == u.kind && g_dst.di == u.di && chance(r, 50)) { rec(" <dec sticky d%d>", u.di);
+        if (chance(r, 50)) return ZSTD_decompressDCtx(g_dc, out, cap, f, fn);
+        {   ZSTD_inBuffer ib; ZSTD_outBuffer ob; size_t r2 = 1; int guard = 0; ib.src = f; ib.size = fn; ib.pos = 0; ob.dst = out; ob.size = cap; ob.pos = 0;
+            while (r2 != 0 && ++guard < 100000) { size_t b = ib.pos + ob.pos; r2 = ZSTD_decompressStream(g_dc, &ob, &ib); if (ZSTD_isError(r2)) return r2; if (r2 && ib.pos + ob.pos == b) return (size_t)-ZSTD_error_srcSize_wrong; }
+            return ob.pos; } }
+    if (u.kind == K_NONE) { rec(" <dec none h%d>", how); if (how != 5) g_dst.kind = K_NONE;
         /* whatever dictionary the context holds, a frame that needs none decodes; drop it half of the time */
         if (how < 3) ZSTD_DCtx_loadDictionary(g_dc, NULL, 0);
         else if (how < 5) ZSTD_DCtx_refDDict(g_dc, NULL);
@@ -241,6 +249,7 @@ static size_t decode_reused(rng_t* r, use_t u, const unsigned char* f, size_t fn
         else { /* leave whatever is there: only legitimate if the held dictionary is raw content or the frame names no ID: names no ID here */ ZSTD_DCtx_loadDictionary(g_dc, NULL, 0); }
         return ZSTD_decompressDCtx(g_dc, out, cap, f, fn); }
     rec(" <dec d%d k%d h%d>", u.di, u.kind, how);
+    if (how <= 1 || how == 3 || how == 6) g_dst = u; else if (how == 2 || (how == 5 && u.kind == K_RAW && d->fmt)) g_dst.kind = K_NONE;   /* a prefix replaces the sticky dictionary and serves once */
     {   ZSTD_dictContentType_e t = u.kind == K_RAW ? ZSTD_dct_rawContent : ZSTD_dct_auto;
         switch (how) {
         case 0: e = ZSTD_DCtx_loadDictionary_advanced(g_dc, d->orig, d->n, ZSTD_dlm_byCopy, t); if (ZSTD_isError(e)) return e; return ZSTD_decompressDCtx(g_dc, out, cap, f, fn);
@@ -274,6 +283,10 @@ static size_t decode_blocks(use_t u, const unsigned char* f, size_t fn, unsigned
     return ZSTD_isError(ret) ? ret : op;
 }
 
+static int g_keep; static int g_print; static char* g_pr; static size_t g_prn, g_prcap;
+static void pr_hex(const char* tag, const unsigned char* b, size_t n) { static const char* H = "0123456789abcdef"; size_t i; size_t need = g_prn + strlen(tag) + 2 * n + 8;
+    if (need > g_prcap) { g_prcap = need * 2; g_pr = (char*)realloc(g_pr, g_prcap); }
+    g_prn += (size_t)sprintf(g_pr + g_prn, "%s", tag); if (n == 0) g_pr[g_prn++] = '-'; for (i = 0; i < n; i++) { g_pr[g_prn++] = H[b[i] >> 4]; g_pr[g_prn++] = H[b[i] & 15]; } g_pr[g_prn] = 0; }
 static unsigned char *X, *OUT, *DEC; static size_t const XCAP = 1600000, OCAP = 3400000;
 static long g_frames, g_errs;
 
@@ -294,6 +307,7 @@ static int check_frame(rng_t* r, use_t u, int noid, int isBlocks, size_t xn, siz
     ds = decode_reused(r, u, OUT, cs, DEC, xn + 64);
     if (ZSTD_isError(ds)) return failx("frame %d (kind %d d%d) decode on the reused DCtx failed: %s", fi, u.kind, u.di, ename(ds));
     if (ds != xn || memcmp(DEC, X, xn)) return failx("frame %d (kind %d d%d) decode on the reused DCtx gives DIFFERENT BYTES", fi, u.kind, u.di);
+    if (g_print && xn <= 40000 && (u.kind == K_NONE || DI[u.di].n <= 70000)) { char tag[64]; sprintf(tag, " F:%d:%d:", u.kind, u.kind == K_NONE ? 0 : u.di); pr_hex(tag, OUT, cs); pr_hex(":", X, xn); }
     /* another dictionary with another ID must be refused */
     if (u.kind == K_FMT && ZSTD_getDictID_fromFrame(OUT, cs) != 0) { int o; for (o = 0; o < NDICT; o++) if (DI[o].fmt && DI[o].id != DI[u.di].id) { use_t w; w.kind = K_FMT; w.di = o;
         ds = decode_fresh(r, w, OUT, cs, DEC, xn + 64, chance(r, 50));
@@ -308,7 +322,7 @@ static int scenario(uint64_t seed) {
     for (i = 0; i < NDICT; i++) make_dict(&r, &DI[i], i == 0 ? 0 : (i == 1 ? 1 : (int)pick(&r, 2)));
     if (DI[2].fmt && DI[2].id == DI[1].id) DI[2].id ^= 0x10, DI[2].buf[4] ^= 0x10, DI[2].orig[4] ^= 0x10;
     rec(" dicts: d0 raw %lu; d1 fmt %lu id %u; d2 %s %lu id %u;", (unsigned long)DI[0].n, (unsigned long)(DI[1].n - DI[1].hdr), DI[1].id, DI[2].fmt ? "fmt" : "raw", (unsigned long)(DI[2].n - DI[2].hdr), DI[2].id);
-    c = ZSTD_createCCtx(); g_dc = ZSTD_createDCtx(); memset(g_dd, 0, sizeof g_dd);
+    c = ZSTD_createCCtx(); g_dc = ZSTD_createDCtx(); memset(g_dd, 0, sizeof g_dd); g_dst.kind = K_NONE; g_dst.di = 0;
     sticky.kind = K_NONE; sticky.di = 0;
     nf = 1 + (int)pick(&r, 7);
     for (fi = 0; fi < nf && !rc; fi++) {
@@ -429,7 +443,7 @@ static int scenario(uint64_t seed) {
     }
     ZSTD_freeCCtx(c); ZSTD_freeDCtx(g_dc);
     for (i = 0; i < g_ncd; i++) ZSTD_freeCDict(CD[i].cd);
-    for (i = 0; i < NDICT; i++) { ZSTD_freeDDict(g_dd[i][0]); ZSTD_freeDDict(g_dd[i][1]); free(DI[i].buf); free(DI[i].orig); }
+    for (i = 0; i < NDICT; i++) { ZSTD_freeDDict(g_dd[i][0]); ZSTD_freeDDict(g_dd[i][1]); if (!g_keep) { free(DI[i].buf); free(DI[i].orig); } }
     return rc;
 }
 
@@ -439,6 +453,12 @@ int main(void) {
     r0.s = 0x1234567887654321ull; gen_base(&r0); make_hdr();
     X = (unsigned char*)malloc(XCAP + 64); OUT = (unsigned char*)malloc(OCAP); DEC = (unsigned char*)malloc(XCAP + 128); g_arena = (unsigned char*)malloc(ARENA);
     while (fgets(line, sizeof line, stdin)) { char id[64]; unsigned long long a, n, s; int bad = 0;
+        if (sscanf(line, "P %63s %llu", id, &a) == 2) { int i, rc; g_print = 1; g_prn = 0; if (g_pr) g_pr[0] = 0; g_keep = 1; rc = scenario(a); g_print = 0; g_keep = 0;
+            if (rc) { printf("%s FAIL seed=%llu what=", id, a); put_(g_what); printf("\n"); }
+            else { printf("%s OK", id); for (i = 0; i < NDICT; i++) { char tag[16]; size_t n0 = g_prn; sprintf(tag, " D%d:", i); g_prn = 0; { char* keep = g_pr; size_t kc = g_prcap; g_pr = NULL; g_prcap = 0; pr_hex(tag, DI[i].n <= 70000 ? DI[i].orig : (const unsigned char*)"", DI[i].n <= 70000 ? DI[i].n : 0); fputs(g_pr, stdout); free(g_pr); g_pr = keep; g_prcap = kc; } g_prn = n0; }
+                   if (g_pr && g_prn) fputs(g_pr, stdout); printf("\n"); }
+            for (i = 0; i < NDICT; i++) { free(DI[i].buf); free(DI[i].orig); }
+            fflush(stdout); continue; }
         if (sscanf(line, "S %63s %llu %llu", id, &a, &n) != 3) continue;
         g_frames = 0;
         for (s = a; s < a + n; s++) if (scenario(s)) { printf("%s FAIL seed=%llu what=", id, s); put_(g_what); printf(" history="); put_(g_log); printf("\n"); bad = 1; break; }
